@@ -65,7 +65,7 @@ fn read_with(root: &VfsPath, p: &str, bufsize: usize) -> Result<Vec<u8>, String>
         }
         out.extend_from_slice(&buf[..n]);
         guard += 1;
-        if guard > 3_000_000 || out.len() > 8_000_000 {
+        if guard > 3_000_000 || out.len() > 100_000_000 {
             return Err("reader does not terminate".into());
         }
     }
@@ -87,7 +87,7 @@ fn verify_all(root: &VfsPath, model: &BTreeMap<String, Vec<u8>>, st_bufsizes: &m
                 if md.file_type != VfsFileType::File || md.len != len as u64 {
                     return Err(format!("metadata('{}') = ({:?}, len {}) but {} bytes were written", p, md.file_type, md.len, len));
                 }
-                let mut sizes = vec![0usize, 4096, 8192, 8193, len.max(1), len + 1, 7];
+                let mut sizes = vec![0usize, 4096, 8192, 8193, len.max(1), len + 1, if len > 1_000_000 { 28_693 } else { 7 }];
                 if len <= 20_000 {
                     sizes.extend([1, 2, 3]);
                 }
@@ -307,6 +307,6 @@ pub fn run(ctx: &RunCtx) -> i32 {
         return 1;
     }
     let (stats, failure) = run_sharded(ctx, "sessions", ctx.tier.pick(5000, 200_000), strategy, test);
-    write_evidence(ctx, "exploration", RULE, &stats, json!({"regress_replayed": reg.replayed}), &["files <= ~1 MiB", "seeks on append handles are covered by C14 (memory only)"], failure.is_some() as u32);
+    write_evidence(ctx, "exploration", RULE, &stats, json!({"regress_replayed": reg.replayed}), &["files <= ~20 MiB (most below 1 MiB)", "seeks on append handles are covered by C14 (memory only)"], failure.is_some() as u32);
     finish(ctx, &stats, &failure, &[("distinct_nontrivial", 100), ("overlay_lower_file", 20), ("boundary_or_large_content", 50)])
 }
